@@ -175,10 +175,174 @@ theorem pktMarshal_ofPacket (p : Packet) (h : encodable p = true) :
     rw [pktMarshal_bytes p b.body (fun _ => ⟨hb3, hb4⟩) hp1 hp0]
     congr 1
     have hext' : (ofPacket p).ext = some b := by simp [ofPacket, hb1]
-    simp only [hdrBytes, hx, ↓reduceIte, hfix, hpadEq, Wire.encode, hps, hxs, hext', encodeExt, extBytes,
+    simp only [hdrBytes, hx, ↓reduceIte, hfix, hpadEq, Wire.encode, hps, hext', encodeExt, extBytes,
       ExtBlock.encode, round4_padTo4, hb2]
     have : b.body.length + padTo4 b.body.length - b.body.length = padTo4 b.body.length := by omega
     rw [this]
     simp [ofPacket]
+
+/-! ### round trip -/
+
+theorem elems_toItems (es : List Ext) : elems (toItems es) = es := by
+  induction es with
+  | nil => rfl
+  | cons e r ih => simp only [toItems, List.map_cons, elems] at ih ⊢; rw [ih]
+
+theorem toItems_ok1 (es : List Ext) (h : es.all extOk1 = true) : (toItems es).all Item.ok1 = true := by
+  simp only [List.all_eq_true] at h ⊢
+  intro it hit
+  simp only [toItems, List.mem_map] at hit
+  obtain ⟨e, he, rfl⟩ := hit
+  have := h e he
+  simp only [extOk1, Bool.and_eq_true, decide_eq_true_eq] at this
+  obtain ⟨⟨⟨a, b⟩, c⟩, d⟩ := this
+  simp only [Item.ok1, Bool.and_eq_true, decide_eq_true_eq]
+  exact ⟨⟨⟨by omega, b⟩, c⟩, d⟩
+
+theorem toItems_noReserved (es : List Ext) (h : es.all extOk1 = true) : (toItems es).any Item.isReserved = false := by
+  rw [List.any_eq_false]
+  intro it hit
+  simp only [toItems, List.mem_map] at hit
+  obtain ⟨e, he, rfl⟩ := hit
+  have := List.all_eq_true.mp h e he
+  simp only [extOk1, Bool.and_eq_true, decide_eq_true_eq] at this
+  obtain ⟨⟨⟨a, _⟩, _⟩, _⟩ := this
+  simp only [Item.isReserved, beq_iff_eq]
+  intro h15; rw [h15] at a; simp at a
+
+theorem toItems_ok2 (es : List Ext) (h : es.all extOk2 = true) : (toItems es).all Item.ok2 = true := by
+  simp only [List.all_eq_true] at h ⊢
+  intro it hit
+  simp only [toItems, List.mem_map] at hit
+  obtain ⟨e, he, rfl⟩ := hit
+  exact h e he
+
+theorem ofPacket_padSize (p : Packet)
+    (hpad : (if p.header.padding then decide (1 ≤ p.paddingSize.toNat) else p.paddingSize == 0) = true) :
+    (ofPacket p).toPacket.paddingSize = p.paddingSize := by
+  cases hp : p.header.padding with
+  | false => simp only [hp, Bool.false_eq_true, ↓reduceIte, beq_iff_eq] at hpad; simp [Wire.toPacket, ofPacket, hp, hpad]
+  | true =>
+    simp only [hp, ↓reduceIte, decide_eq_true_eq] at hpad
+    have : p.paddingSize.toNat - 1 + 1 = p.paddingSize.toNat := by omega
+    simp [Wire.toPacket, ofPacket, hp, rep_length, this]
+
+theorem ofPacket_padOk (p : Packet) :
+    (match (ofPacket p).pad with | some f => decide (f.length ≤ 254) | none => true) = true := by
+  cases hp : p.header.padding with
+  | false => simp [ofPacket, hp]
+  | true =>
+    have := p.paddingSize.toNat_lt
+    simp [ofPacket, hp, rep_length]; omega
+
+theorem ofPacket_header_noext (p : Packet) (hx : p.header.extension = false) (he : p.header.exts = []) :
+    (ofPacket p).toPacket.header = canonH p.header := by
+  have hpi : (ofPacket p).pad.isSome = p.header.padding := by
+    cases hp : p.header.padding <;> simp [ofPacket, hp]
+  have hext : (ofPacket p).ext = none := by simp [ofPacket, extOf, hx]
+  obtain ⟨hd, pl, ps⟩ := p
+  obtain ⟨v, pa, x, m, pt, sq, ts, ss, cs, prof, es⟩ := hd
+  simp only at hx he hpi hext
+  subst hx he
+  simp only [Wire.toPacket, hext, hpi, canonH]
+  simp [ofPacket]
+
+theorem ofPacket_header_ext (p : Packet) (b : ExtBlock) (hx : p.header.extension = true)
+    (hb : extOf p.header = some b) (hp : b.profile = p.header.extProfile) (he : b.elements = p.header.exts) :
+    (ofPacket p).toPacket.header = canonH p.header := by
+  have hpi : (ofPacket p).pad.isSome = p.header.padding := by
+    cases hp : p.header.padding <;> simp [ofPacket, hp]
+  have hext : (ofPacket p).ext = some b := by simp [ofPacket, hb]
+  obtain ⟨hd, pl, ps⟩ := p
+  obtain ⟨v, pa, x, m, pt, sq, ts, ss, cs, prof, es⟩ := hd
+  simp only at hx he hpi hext hp
+  subst hx
+  simp only [Wire.toPacket, hext, hpi, canonH, hp, he]
+  simp [ofPacket]
+
+theorem extOf_ok (h : Header) (hx : h.extension = true)
+    (he : (if h.extProfile == profileOneByte then h.exts.all extOk1 && extBodySize h ≤ maxBody
+     else if h.extProfile == profileTwoByte then h.exts.all extOk2 && extBodySize h ≤ maxBody
+     else match h.exts with
+       | [e] => e.id == 0 && e.payload.length % 4 == 0 && e.payload.length ≤ maxBody
+       | _ => false) = true) :
+    ∃ b, extOf h = some b ∧ b.profile = h.extProfile ∧ blockOk b = true ∧ blockUnread b = 0 ∧
+      b.elements = h.exts := by
+  obtain ⟨b0, hb0, _, _, hlen⟩ := extBody_ofPacket h hx he
+  by_cases h1 : h.extProfile == profileOneByte
+  · simp only [h1, ↓reduceIte, Bool.and_eq_true, decide_eq_true_eq] at he
+    have hb : extOf h = some (.oneByte (toItems h.exts)) := by simp [extOf, hx, h1]
+    rw [hb] at hb0; cases hb0
+    have hnr := toItems_noReserved h.exts he.1
+    refine ⟨_, hb, ?_, ?_, ?_, ?_⟩
+    · simp only [ExtBlock.profile]; simp only [beq_iff_eq, profileOneByte] at h1; exact h1.symm
+    · simp only [blockOk, Bool.and_eq_true, decide_eq_true_eq, toItems_ok1 _ he.1, true_and]
+      simp only [ExtBlock.body] at hlen; omega
+    · simp only [blockUnread]; exact left1_noReserved _ _ hnr
+    · simp only [ExtBlock.elements, elems1_noReserved _ hnr, elems_toItems]
+  · by_cases h2 : h.extProfile == profileTwoByte
+    · simp only [h1, h2, ↓reduceIte, Bool.false_eq_true, Bool.and_eq_true, decide_eq_true_eq] at he
+      have hb : extOf h = some (.twoByte (toItems h.exts)) := by simp [extOf, hx, h1, h2]
+      rw [hb] at hb0; cases hb0
+      refine ⟨_, hb, ?_, ?_, rfl, ?_⟩
+      · simp only [ExtBlock.profile]; simp only [beq_iff_eq, profileTwoByte] at h2; exact h2.symm
+      · simp only [blockOk, Bool.and_eq_true, decide_eq_true_eq, toItems_ok2 _ he.1, true_and]
+        simp only [ExtBlock.body] at hlen; omega
+      · simp only [ExtBlock.elements, elems_toItems]
+    · simp only [h1, h2, ↓reduceIte, Bool.false_eq_true] at he
+      match hes : h.exts, he with
+      | [e], he =>
+        simp only [Bool.and_eq_true, beq_iff_eq, decide_eq_true_eq] at he
+        obtain ⟨⟨e1, e2⟩, e3⟩ := he
+        refine ⟨.legacy h.extProfile e.payload, by simp [extOf, hx, h1, h2, hes], rfl, ?_, rfl, ?_⟩
+        · simp only [blockOk, Bool.and_eq_true, bne_iff_ne, ne_eq, beq_iff_eq, decide_eq_true_eq]
+          simp only [beq_iff_eq, profileOneByte, profileTwoByte] at h1 h2
+          exact ⟨⟨⟨h1, h2⟩, e2⟩, e3⟩
+        · cases e; simp_all [ExtBlock.elements]
+
+/-- the description of an encodable packet meets the hypotheses of the parse lemmas, leaves
+    nothing unread, and describes that packet -/
+theorem ofPacket_ok (p : Packet) (h : encodable p = true) :
+    wireOk (ofPacket p) = true ∧ wireUnread (ofPacket p) = 0 ∧ (ofPacket p).toPacket = canonP p := by
+  simp only [encodable, Bool.and_eq_true, decide_eq_true_eq] at h
+  obtain ⟨⟨⟨⟨hv, hpt⟩, hcc⟩, hpad⟩, hext⟩ := h
+  have hps := ofPacket_padSize p hpad
+  have hpadok := ofPacket_padOk p
+  have hpkt : ∀ hd, (ofPacket p).toPacket.header = hd → (ofPacket p).toPacket = { p with header := hd } := by
+    intro hd hh
+    have e1 : (ofPacket p).toPacket.payload = p.payload := rfl
+    rw [← hh, ← hps, ← e1]
+  cases hx : p.header.extension with
+  | false =>
+    simp only [hx, Bool.false_eq_true, ↓reduceIte, List.isEmpty_iff] at hext
+    have he : (ofPacket p).ext = none := by simp [ofPacket, extOf, hx]
+    refine ⟨?_, by simp [wireUnread, he], ?_⟩
+    · simp only [wireOk, Bool.and_eq_true, decide_eq_true_eq, he]
+      exact ⟨⟨⟨⟨hv, hpt⟩, hcc⟩, trivial⟩, hpadok⟩
+    · exact hpkt _ (ofPacket_header_noext p hx hext)
+  | true =>
+    simp only [hx, ↓reduceIte] at hext
+    obtain ⟨b, hb1, hb2, hb3, hb4, hb5⟩ := extOf_ok p.header hx hext
+    have he : (ofPacket p).ext = some b := by simp [ofPacket, hb1]
+    refine ⟨?_, by simp [wireUnread, he, hb4], ?_⟩
+    · simp only [wireOk, Bool.and_eq_true, decide_eq_true_eq, he]
+      exact ⟨⟨⟨⟨hv, hpt⟩, hcc⟩, hb3⟩, hpadok⟩
+    · exact hpkt _ (ofPacket_header_ext p b hx hb1 hb2 hb5)
+
+theorem canonP_decoded (r : Header) (w : Wire) :
+    canonP { header := hdrOf r w, payload := w.payload, paddingSize := w.toPacket.paddingSize } = canonP w.toPacket := by
+  simp only [canonP, canonH_hdrOf]
+  simp [Wire.toPacket]
+
+theorem canonP_idem (p : Packet) : canonP (canonP p) = canonP p := by
+  cases hx : p.header.extension <;> simp [canonP, canonH, hx]
+
+/-- Marshal then Unmarshal (into any receiver) gives the packet back: C01's round trip on the
+    whole `encodable` class -/
+theorem marshal_unmarshal (p : Packet) (h : encodable p = true) (r : Packet) :
+    ∃ bs p', pktMarshal p = .ok bs ∧ pktUnmarshal r bs = .ok p' ∧ canonP p' = canonP p := by
+  obtain ⟨h1, h2, h3⟩ := ofPacket_ok p h
+  refine ⟨_, _, pktMarshal_ofPacket p h, pktUnmarshal_encode (ofPacket p) r h1 h2, ?_⟩
+  rw [canonP_decoded, h3, canonP_idem]
 
 end Rtp.Proofs.Wire
